@@ -763,16 +763,10 @@ Proof.
     exists ((ty, a) :: xs). split; [eapply lt_tok; eassumption|].
     constructor; [|rewrite E'; rewrite <- app_assoc in Hf; exact Hf].
     split; [reflexivity|]. cbn [snd].
-    assert (Hk : tok_at (pre0 ++ c :: r) (mk_token o (o + blen a) ty)).
-    { exists pre0, c, r, a, b. cbn [t_ty t_start t_end]. repeat split; auto; lia. }
-    destruct (tok_at_span _ _ Hk) as (c1 & r1 & a1 & b1 & E1 & _ & Hs & _).
-    rewrite Hs. f_equal.
-    (* the step found by tok_at_span is the one at hand *)
-    destruct Hk as (pre2 & c2 & r2 & a2 & b2 & Ht & E2 & Hs2 & He2).
-    clear - Hs E E' Ho Ha. unfold tok_span, slice in Hs. cbn [t_start t_end] in Hs.
-    destruct (o + blen a <? o) eqn:Elt; [lia|]. subst o. rewrite take_bytes_app in Hs.
-    replace (blen pre0 + blen a - blen pre0) with (blen a) in Hs by lia.
-    rewrite E', take_bytes_app in Hs. injection Hs as <-. reflexivity.
+    unfold tok_span, slice. cbn [t_start t_end].
+    destruct (o + blen a <? o) eqn:Elt; [lia|]. subst o. rewrite take_bytes_app.
+    replace (blen pre0 + blen a - blen pre0) with (blen a) by lia.
+    rewrite E', take_bytes_app. reflexivity.
 Qed.
 
 Lemma lexes_split o l ts : lexes o l ts -> forall pre0 u k r, o = blen pre0 -> ts = u ++ k :: r ->
